@@ -200,6 +200,8 @@ class World:
         self.orig = None          # (model, ref, digest at copy time) once a copy was taken
         self.counter = 0
         self.events = []          # things to check at the end that depend on the step (copy/load equality)
+        self.fail = None          # violation decided while applying an operation
+        self.unmodelled = False   # an edit without a meaning in the reference was accepted: invariants only, no successors
 
     def fresh(self):
         self.counter += 1
@@ -211,6 +213,8 @@ class World:
     def enabled(self):
         r = self.r
         names = self.named()
+        if self.unmodelled:
+            return []
         ops = [('addC',)]
         for p in names:
             ops.append(('addO', p))
@@ -228,6 +232,11 @@ class World:
             for y in names:
                 if x != y and not r.children(y) and y not in r.descendants(x):
                     ops.append(('become', x, y))
+        # a node cannot take over the parents of itself or of one of its own descendants without closing a cycle: such a
+        # become has no dataflow meaning; whatever the model does with it, it has to remain a consistent acyclic graph
+        for x in names:
+            for y in [x] + sorted(r.descendants(x)):
+                ops.append(('become_cyc', x, y))
         for x in names:
             ops.append(('remove', x))
         if self.orig is None:
@@ -279,6 +288,15 @@ class World:
         elif k == 'become':
             m[op[1]].become(m[op[2]])
             r.become(op[1], op[2])
+        elif k == 'become_cyc':
+            before = model_digest(m)
+            try:
+                m[op[1]].become(m[op[2]])
+            except Exception as e:
+                if model_digest(m) != before:
+                    self.fail = ('C14:refused-become-altered-the-model', {'exception': type(e).__name__})
+            else:
+                self.unmodelled = True
         elif k == 'remove':
             m.remove_node(op[1])
             r.remove(op[1])
@@ -336,6 +354,13 @@ def judge(seedkind, hist, workdir):
         w.apply(tuple(op))
     what = {'seed_model': seedkind, 'history': [list(o) for o in hist]}
     last = hist[-1][0] if hist else 'init'
+    if w.fail:
+        return (w.fail[0], dict(what, **w.fail[1])), w
+    if w.unmodelled:
+        inv = invariants(w.m)
+        if inv:
+            return ('C14:invariant:' + '-'.join(inv[0].split(' ')[:3]) + ':after-' + last, dict(what, problems=inv)), w
+        return None, w
     # agreement with the reference
     t, obs, problems = real_table(w.m)
     rt, robs = w.r.table()
@@ -491,7 +516,7 @@ def run(ctx):
     ctx.extra['depth'] = depth
     ctx.rule = ('BFS over edit histories up to depth %d from seed models {empty, M1, M2}: add Constant/Operation(1-2 '
                 'parents, positional or named)/Prior(constant or hierarchical)/Summary, become (replacement childless, not a '
-                'descendant), remove, copy (continue on the copy), save+load, and on a copy set parameter_names / assign '
+                'descendant; and the cycle-closing become of a node with itself or a descendant, judged on the invariants only), remove, copy (continue on the copy), save+load, and on a copy set parameter_names / assign '
                 'observed data; canonical-state dedup inside each sub-tree; every history is a distinct case' % depth)
     ctx.assumptions += [
         'become(x, y) is explored for replacement nodes y without children that are not descendants of x (the documented use: '
